@@ -69,6 +69,43 @@ def run_scenario(args):
                functions=sorted({"%s:%s" % (n["op"].get("line", ("?", 0))[0], n["op"]["kind"]) for th in threads for n in th["nodes"].values()}))
     F = enc.final()
     done = enc.done()
+    if args.pin:
+        # sequential validation: operations run one at a time in the given order; report the final tuple
+        order = []
+        ri = 0
+        for who in args.pin.split(","):
+            if who == "S":
+                order.append((0, 0))
+            else:
+                order.append((1, ri))
+                ri += 1
+        cons = []
+        for i in range(enc.k):
+            S_ = enc.S[i]
+            def in_op(t, j):
+                ids = [nid for nid, o in threads[t]["op_of"].items() if o == j]
+                return z3.Or(*[S_.pc[t] == E.N(nid) for nid in ids]) if ids else z3.BoolVal(False)
+            def finished(u, m_):
+                return z3.Not(z3.Or(*[in_op(u, mm) for mm in range(m_ + 1)]))
+            for pos, (t, j) in enumerate(order):
+                before = order[:pos]
+                if before:
+                    cons.append(z3.Implies(z3.And(enc.sched[i] == E.N(t), in_op(t, j)), z3.And(*[finished(u, m_) for (u, m_) in before])))
+            # receiver operations that are not in the order list never start
+            nrecv = len([1 for (t, j) in order if t == 1])
+            for j in range(nrecv, len(args.recv)):
+                cons.append(z3.Implies(enc.sched[i] == E.N(1), z3.Not(in_op(1, j))))
+        # "finished" = both threads at END, or the receiver parked before an operation outside the order
+        r, m = enc.check(*cons, F.pc[0] == E.N(E.END), timeout_s=args.timeout)
+        if r != z3.sat:
+            out.update(verdict="pin-unsat", detail=str(r))
+            return out
+        ev = lambda x: m.eval(x, model_completion=True)
+        out.update(verdict="pinned", final=dict(outcome=ev(F.outcome).as_long(), delivered=ev(F.cnt["delivered"]).as_long(), vdrops=ev(F.cnt["vdrops"]).as_long(),
+                                                clones=ev(F.cnt["clones"]).as_long(), wdrops=ev(F.cnt["wdrops"]).as_long(), woken=ev(F.woken).as_long(),
+                                                last_pending=ev(F.last_pending).as_long(), recv_gone=z3.is_true(ev(F.recv_gone)), sender_done=z3.is_true(ev(F.sender_done)),
+                                                bad=ev(F.bad).as_long(), race=ev(F.race).as_long(), released=ev(F.cnt["released"]).as_long()))
+        return out
     tq = time.time()
     r, m = enc.check(done, timeout_s=args.timeout)
     out["queries"].append(dict(q="witness: a complete run exists", result=str(r), s=round(time.time() - tq, 2)))
@@ -249,6 +286,7 @@ def main():
     ap.add_argument("--timeout", type=float, default=600)
     ap.add_argument("--stale", action="store_true", help="message-history model with stale reads (slow; cross-check only). Default: one atomic location => coherence makes value reads SC; happens-before is tracked with vector clocks either way")
     ap.add_argument("--kcap", type=int, default=22)
+    ap.add_argument("--pin", default=None, help="events_once: run the operations one at a time in this order (comma list of S|R) and print the final tuple")
     ap.add_argument("--model", default="events_once")
     ap.add_argument("--mir2", default=None, help="MIR dump of awaiter_set (events models)")
     ap.add_argument("--programs", default="[]", help="events models: JSON list of per-thread item lists")
